@@ -7,6 +7,7 @@
 import Nq.Lemmas.SmtpSim
 import Nq.Lemmas.SmtpDecode
 import Nq.Lemmas.SmtpWire
+import Nq.Lemmas.SmtpIO
 
 namespace Nq.Props.C06
 open Nq Nq.SmtpOut Nq.SmtpIn Nq.Wire Nq.Lemmas
@@ -103,5 +104,115 @@ example : canon [97, 13, 46, 10, 81, 85, 73, 84, 10] = [97, 10, 46, 10, 81, 85, 
 example : rblast [46, 10, 46, 46, 10, 97, 13, 10]
     = some [46, 46, 13, 10, 46, 46, 46, 13, 10, 97, 13, 10, 46, 13, 10] := by decide
 example : rblast [97, 97] = none := by decide
+
+/-! ### Chunking independence: `blast()` as it runs over substdio (`Nq.SmtpIO.oblast`)
+
+`oblast i o` is qmail-remote.c `blast()` reading the message one byte at a time with
+`substdio_get(&ssin,&ch,1)` from `i : Substdio.ISt` (any buffer size, read script `i.rs` = how many bytes
+each `read()` of the queue file returns; `0` = a failing read) and writing with the individual
+`substdio_put(&smtpto,…)` calls of the source, then `substdio_flush`, to `o : Substdio.OSt` (any buffer size,
+write script `o.ws` = how many bytes each `write()` to the socket takes; `0` = a failing write).
+`o'.out` is the concatenation of everything the socket took.  The CR look-ahead is an ordinary
+`substdio_get`, so it refills the buffer when the CR was the last byte of a read. -/
+section chunking
+open Nq.Substdio Nq.SmtpIO Nq.Lemmas.SmtpIO
+
+/-- **C06_chunking_anyscript.**  For every read script and every write script, failing calls included:
+if `blast()` returns, the bytes put on the wire after what was there before are exactly `rblast m` of the
+whole message and the output buffer is empty (flushed); `perm_partialline()` happens only when the pure
+encoder refuses the message; `temp_read()` only after a failing read; `dropped()` only after a failing
+write.  The substdio invariants (`0 ≤ p ≤ n`, every copy inside the buffer) are kept. -/
+theorem C06_chunking_anyscript (i : ISt) (o : OSt) (hi : IWF i) (ho : OWF o) (hc : cpIn o) :
+    match oblast i o with
+    | .sent o' => ∃ e, rblast (i.data ++ i.src) = some e ∧ o'.out = o.out ++ o.buf ++ e ∧ o'.buf = [] ∧
+                    OWF o' ∧ cpIn o' ∧ o'.n = o.n
+    | .partialLine _ => rblast (i.data ++ i.src) = none
+    | .tempRead _ => 0 ∈ i.rs
+    | .dropped _ => 0 ∈ o.ws := by
+  have := oblast_spec i o hi ho hc
+  generalize oblast i o = R at this
+  cases R <;> exact this
+
+/-- **C06_chunking.**  With reads and writes that do not fail — but are split in any way whatsoever —
+`blast()` returns and the wire carries exactly `rblast m`, or the message ends inside a line and is refused:
+the transmission does not depend on how the file is read or how the socket accepts the bytes. -/
+theorem C06_chunking (i : ISt) (o : OSt) (hi : IWF i) (ho : OWF o) (hc : cpIn o) (hr : 0 ∉ i.rs) (hw : 0 ∉ o.ws) :
+    (∀ e, rblast (i.data ++ i.src) = some e →
+        ∃ o', oblast i o = .sent o' ∧ o'.out = o.out ++ o.buf ++ e ∧ o'.buf = []) ∧
+    (rblast (i.data ++ i.src) = none → ∃ o', oblast i o = .partialLine o') := by
+  have := C06_chunking_anyscript i o hi ho hc
+  generalize oblast i o = R at this
+  cases R with
+  | sent o' =>
+    obtain ⟨e, h1, h2, h3, _⟩ := this
+    refine ⟨fun e' he' => ⟨o', rfl, ?_, h3⟩, fun hn => ?_⟩
+    · rw [h1] at he'; cases he'; exact h2
+    · rw [h1] at hn; cases hn
+  | partialLine o' =>
+    simp only at this
+    exact ⟨fun e he => (by rw [this] at he; cases he), fun _ => ⟨o', rfl⟩⟩
+  | tempRead o' => exact absurd this hr
+  | dropped o' => exact absurd this hw
+
+/-- **Independence of the split**, stated directly: two runs on the same message with different buffer
+sizes, read sizes and write sizes, starting with nothing pending, put the same bytes on the wire. -/
+theorem C06_chunking_indep (i₁ i₂ : ISt) (o₁ o₂ o₁' o₂' : OSt) (hi₁ : IWF i₁) (hi₂ : IWF i₂)
+    (ho₁ : OWF o₁) (ho₂ : OWF o₂) (hc₁ : cpIn o₁) (hc₂ : cpIn o₂)
+    (hm : i₁.data ++ i₁.src = i₂.data ++ i₂.src) (hp : o₁.out ++ o₁.buf = o₂.out ++ o₂.buf)
+    (h₁ : oblast i₁ o₁ = .sent o₁') (h₂ : oblast i₂ o₂ = .sent o₂') : o₁'.out = o₂'.out := by
+  have a := C06_chunking_anyscript i₁ o₁ hi₁ ho₁ hc₁
+  have b := C06_chunking_anyscript i₂ o₂ hi₂ ho₂ hc₂
+  rw [h₁] at a; rw [h₂] at b
+  obtain ⟨e₁, a1, a2, _⟩ := a
+  obtain ⟨e₂, b1, b2, _⟩ := b
+  rw [hm, b1] at a1; cases a1
+  rw [a2, b2, hp]
+
+/-- The wire clauses of the property for the bytes **actually written to the socket**: whenever `blast()`
+returns on a connection whose output buffer was empty (it is: `DATA` was sent with `substdio_putsflush`),
+the concatenation of the `write()`s satisfies terminator-once, no-bare-LF and dot-stuffing. -/
+theorem C06_chunking_wire (i : ISt) (o o' : OSt) (hi : IWF i) (ho : OWF o) (hc : cpIn o)
+    (hfresh : o.out = [] ∧ o.buf = []) (h : oblast i o = .sent o') :
+    termOnce o'.out = true ∧ noBareLF o'.out = true ∧ linesStuffed o'.out = true := by
+  have a := C06_chunking_anyscript i o hi ho hc
+  rw [h] at a
+  obtain ⟨e, a1, a2, _⟩ := a
+  rw [hfresh.1, hfresh.2] at a2
+  simp only [List.append_nil, List.nil_append] at a2
+  rw [a2]
+  exact ⟨C06_terminator _ e a1, C06_nolf _ e a1, C06_stuffed _ e a1⟩
+
+/-- **End to end over chunked I/O on both sides**: qmail-remote reads message `m` in any chunks and writes
+it in any chunks; qmail-smtpd at the other end receives those bytes (followed by anything, `rest`) in any
+segmentation `s`, with any buffer state.  It stores exactly `canon m` and leaves `rest` for the command parser. -/
+theorem C06_chunked_roundtrip (i : ISt) (o o' : OSt) (s : ISt) (rest : Bytes) (hi : IWF i) (ho : OWF o) (hc : cpIn o)
+    (hfresh : o.out = [] ∧ o.buf = []) (hsent : oblast i o = .sent o')
+    (hs : IWF s) (hsr : 0 ∉ s.rs) (hwire : s.data ++ s.src = o'.out ++ rest) :
+    (sblast s).view = .accepted (canon (i.data ++ i.src)) rest := by
+  have a := C06_chunking_anyscript i o hi ho hc
+  rw [hsent] at a
+  obtain ⟨e, a1, a2, _⟩ := a
+  rw [hfresh.1, hfresh.2] at a2
+  simp only [List.append_nil, List.nil_append] at a2
+  rcases sblast_spec s hs with ⟨_, e0⟩ | e0
+  · exact absurd e0 hsr
+  · rw [view_of_agree _ _ _ e0, hwire, a2]
+    exact (C06_decode _ e rest a1).1
+
+/-- Non-vacuity: "a CR . LF Q LF" read through a 2-byte buffer in reads of 2 (so the CR is the last byte
+of a read and the look-ahead needs a refill), written through a 3-byte buffer to a socket taking
+1, 2, 1, … bytes: the dot after the bare CR is stuffed and the wire is `rblast` of the message. -/
+example : (match oblast (istart 2 [97, 13, 46, 10, 81, 10] [2, 2, 2, 1]) (ostart 3 [1, 2, 1, 1, 5]) with
+    | .sent o' => o'.out | _ => []) = [97, 13, 10, 46, 46, 13, 10, 81, 13, 10, 46, 13, 10] := by decide
+example : rblast [97, 13, 46, 10, 81, 10] = some [97, 13, 10, 46, 46, 13, 10, 81, 13, 10, 46, 13, 10] := by decide
+example : IWF (istart 2 [97, 13, 46, 10, 81, 10] [2, 2, 2, 1]) ∧ OWF (ostart 3 [1, 2, 1, 1, 5]) ∧
+    cpIn (ostart 3 [1, 2, 1, 1, 5]) := by decide
+/-- a failing write: `dropped()`; a message ending inside a line: `perm_partialline()` -/
+example : (match oblast (istart 2 [97, 10, 98, 10] []) (ostart 3 [1, 0]) with | .dropped _ => true | _ => false) = true := by
+  decide
+example : (match oblast (istart 2 [97, 10, 98] [1]) (ostart 3 []) with | .partialLine _ => true | _ => false) = true := by
+  decide
+
+end chunking
 
 end Nq.Props.C06
